@@ -1,7 +1,9 @@
 package main
 
 import (
+	"encoding/json"
 	"fmt"
+	"os"
 	"strings"
 
 	"github.com/jub0bs/cors"
@@ -22,6 +24,9 @@ type c08Case struct {
 	Cont   []string `json:"continuation"`
 	// Shape 1: Bad is handed over with its lists as windows of one backing array, unused lists empty but non-nil
 	Shape int `json:"slice_shape,omitempty"`
+	// After: the process has just started and these configurations went through NewMiddleware (accepted or not)
+	// before anything else happened (see "fresh processes" in main.go)
+	After []CfgLit `json:"earlier_in_a_fresh_process,omitempty"`
 }
 
 var c08Derivations = []string{"cur+maxage", "cur+origin+badmethod", "cur+origins+status", "cur+origin+badorigin", "cur-reversed+origin+badheader", "cur+pna-both",
@@ -178,6 +183,18 @@ func c08Replay(init string, hist []string) (*cors.Middleware, *vlib.Failure) {
 }
 
 func c08Judge(k c08Case) *vlib.Failure {
+	if len(k.After) > 0 {
+		if os.Getenv(childEnv) == "" {
+			if d, bad := inFreshProcess("C08", []c08Case{k})[0]; bad {
+				return vlib.Failf("%s", d)
+			}
+			return nil
+		}
+		// in the child, and first in its list: nothing has touched the package under test yet
+		for _, a := range k.After {
+			cors.NewMiddleware(a.Config())
+		}
+	}
 	if f := smEnsure(); f != nil {
 		return f
 	}
@@ -298,9 +315,63 @@ func checkC08(c *vlib.Ctx) (string, string) {
 			break
 		}
 	}
+	c08FreshProcessPass(c, ck)
 	c.Set("invalid_configurations", len(bads))
 	c.Set("continuations", len(conts))
 	return levelMC, rule
 }
 
-func init() { registry["C08"] = checkC08 }
+// c08FreshProcessPass: the first thing a process does is to validate one single-origin configuration (every origin
+// atom, without and with both DangerouslyTolerate* switches); then every single-origin configuration that the
+// documentation prohibits is passed to Reconfigure of a configured and of a zero-value middleware in that process.
+func c08FreshProcessPass(c *vlib.Ctx, ck *Checker[c08Case]) {
+	var battery []c08Case
+	for _, a := range c04OA {
+		if len(ref.Validate(ref.AtomConfig{Origins: []ref.OriginAtom{a}})) == 0 {
+			continue
+		}
+		for _, init := range []string{"new(A)", "zero"} {
+			battery = append(battery, c08Case{Init: init, Bad: CfgLit{Origins: []string{a.Value}}})
+		}
+	}
+	var firsts []CfgLit
+	for _, a := range c04OA {
+		firsts = append(firsts, CfgLit{Origins: []string{a.Value}}, CfgLit{Origins: []string{a.Value}, TolInsecure: true, TolPSL: true})
+	}
+	c.ParRange(int64(len(firsts)), 1, "C08 fresh processes", func(i int64) {
+		seq := append([]c08Case(nil), battery...)
+		seq[0].After = []CfgLit{firsts[i]}
+		c.States.Add(1)
+		c.Transitions.Add(int64(len(seq)))
+		c.Evaluations.Add(int64(len(seq)))
+		fails := inFreshProcess("C08", seq)
+		for j := range seq {
+			d, bad := fails[j]
+			if !bad {
+				continue
+			}
+			k := seq[j]
+			k.After = []CfgLit{firsts[i]}
+			if ck.Judge(k) == nil {
+				// not reproducible from the first validation alone: keep everything that came before
+				for _, e := range seq[:j] {
+					k.After = append(k.After, e.Bad)
+				}
+			}
+			ck.Report(k, vlib.Failf("%s", afterNote(len(k.After), d)))
+			break
+		}
+	})
+	c.Set("fresh_process_histories", map[string]int{"first_validations": len(firsts), "rejected_reconfigurations_afterwards_each": len(battery)})
+}
+
+func init() {
+	registry["C08"] = checkC08
+	childJudges["C08"] = func(raw json.RawMessage) *vlib.Failure {
+		var k c08Case
+		if err := json.Unmarshal(raw, &k); err != nil {
+			vlib.HarnessError("fresh-process child: cannot decode case: %v", err)
+		}
+		return c08Judge(k)
+	}
+}
